@@ -157,7 +157,7 @@ CHECKS = [
         "against an abstract sliding time-indexed map over all update histories of a small scope plus seeded random longer ones, "
         "including datetime/index window queries, and the real MovingWindow (alignment on and off the epoch grid, at(), window(), "
         "oldest/newest) against the same map. The bounded part found genuine defects in window(), MovingWindow.at() and count_covered() (non-binary sampling periods), repaired by "
-        "two fix: commits.",
+        "three fix: commits.",
         "gap-list maintenance, window assembly and MovingWindow are outside the verifier's subset (in-place mutation of aliased objects, "
         "numpy, tasks): only the stated bounded scope is covered for them; even-microsecond periods for the proof",
         "contract-based deductive verification of the index arithmetic + bounded native exploration of the real class (stand-in)",
